@@ -640,3 +640,43 @@ mod test {
         assert_eq!(ty!(apply (item 0) (infer 0)), ty);
     }
 }
+
+/// Verification hook H2 (compiled only with `--cfg chalk_verif`): thin public wrappers
+/// around the crate-private answer-aggregation helpers of this module.
+#[cfg(chalk_verif)]
+pub(crate) mod verif {
+    use chalk_ir::interner::Interner;
+    use chalk_ir::*;
+    use chalk_solve::infer::InferenceTable;
+
+    /// `merge_into_guidance` as used by `make_solution`.
+    pub fn merge_into_guidance<I: Interner>(
+        interner: I,
+        root_goal: &Canonical<InEnvironment<Goal<I>>>,
+        guidance: Canonical<Substitution<I>>,
+        answer: &Canonical<ConstrainedSubst<I>>,
+    ) -> Canonical<Substitution<I>> {
+        super::merge_into_guidance(interner, root_goal, guidance, answer)
+    }
+
+    /// `is_trivial` as used by `make_solution`.
+    pub fn is_trivial<I: Interner>(interner: I, subst: &Canonical<Substitution<I>>) -> bool {
+        super::is_trivial(interner, subst)
+    }
+
+    /// `AntiUnifier::aggregate_generic_args` with fresh variables drawn from `infer` in `universe`.
+    pub fn aggregate_generic_args<I: Interner>(
+        interner: I,
+        infer: &mut InferenceTable<I>,
+        universe: UniverseIndex,
+        p1: &GenericArg<I>,
+        p2: &GenericArg<I>,
+    ) -> GenericArg<I> {
+        super::AntiUnifier {
+            infer,
+            universe,
+            interner,
+        }
+        .aggregate_generic_args(p1, p2)
+    }
+}
